@@ -257,6 +257,8 @@ func checkC18(p *Program, r *Report) {
 				continue
 			}
 			hasArgs, hasCore := false, false
+			// the environment value stored into the global, and everything that denotes the same object
+			same := func(v ssa.Value) bool { return sameEnvObject(v, envG, fn, 0) }
 			for _, b := range fn.Blocks {
 				for _, in := range b.Instrs {
 					c, ok := in.(*ssa.Call)
@@ -267,21 +269,21 @@ func checkC18(p *Program, r *Report) {
 					if o == nil || o.Pkg() == nil {
 						continue
 					}
-					if isFuncNamed(o, modPath+"/env", "Env", "Define") && len(c.Call.Args) == 3 {
+					if isFuncNamed(o, modPath+"/env", "Env", "Define") && len(c.Call.Args) == 3 && same(c.Call.Args[0]) {
 						if k, ok := c.Call.Args[1].(*ssa.Const); ok && k.Value != nil && k.Value.ExactString() == "\"args\"" {
 							hasArgs = true
 						}
 					}
-					if o.Pkg().Path() == modPath+"/core" && o.Name() == "Import" {
+					if o.Pkg().Path() == modPath+"/core" && o.Name() == "Import" && len(c.Call.Args) == 1 && same(c.Call.Args[0]) {
 						hasCore = true
 					}
 				}
 			}
 			switch {
 			case !hasArgs:
-				why = "the prepared environment does not define args"
+				why = "args is not defined in the very environment the script runs in"
 			case !hasCore:
-				why = "core.Import is not applied to the prepared environment"
+				why = "core.Import is not applied to the very environment the script runs in (builtins that close over their environment, such as defined and load, would act on another scope)"
 			default:
 				okSetup = true
 			}
@@ -340,6 +342,34 @@ func checkC18(p *Program, r *Report) {
 					}
 				}
 				r.Check(guard, "C18.R3", funcName(fn)+"|script args guarded", p.Pos(instrPos(sl)), "taken only when at least one argument is present", "flag.Args()[1:] can be evaluated with no arguments (slice bounds panic)")
+				// with -e there is no file name: every positional argument belongs to the script
+				if eg := executeFlagGlobal(sp); eg != nil {
+					noE := false
+					for d := b; d != nil && d.Idom() != nil; d = d.Idom() {
+						id := d.Idom()
+						iff, ok := id.Instrs[len(id.Instrs)-1].(*ssa.If)
+						if !ok {
+							continue
+						}
+						bo, ok := iff.Cond.(*ssa.BinOp)
+						if !ok {
+							continue
+						}
+						u, ok := bo.X.(*ssa.UnOp)
+						if !ok || u.X != ssa.Value(eg) {
+							continue
+						}
+						k, ok := bo.Y.(*ssa.Const)
+						if !ok || k.Value == nil || k.Value.ExactString() != `""` {
+							continue
+						}
+						if (bo.Op == token.NEQ && edgeOnly(id, 1, d)) || (bo.Op == token.EQL && edgeOnly(id, 0, d)) {
+							noE = true
+						}
+					}
+					n3++
+					r.Check(noE, "C18.R3", funcName(fn)+"|script args without -e", p.Pos(instrPos(sl)), "the first positional argument is a file name only when no -e source was given", "with -e the first positional argument is still split off as a file name: the script sees one argument less than the same source run through vm.Execute")
+				}
 			}
 		}
 	}
@@ -405,4 +435,42 @@ func flowsFromCall(v ssa.Value, fn *ssa.Function, depth int) bool {
 		}
 	}
 	return false
+}
+
+// sameEnvObject: v denotes the environment object stored into global g by fn: the stored value itself or a load of g.
+func sameEnvObject(v ssa.Value, g *ssa.Global, fn *ssa.Function, depth int) bool {
+	if u, ok := v.(*ssa.UnOp); ok && u.X == ssa.Value(g) {
+		return true
+	}
+	for _, b := range fn.Blocks {
+		for _, in := range b.Instrs {
+			if st, ok := in.(*ssa.Store); ok && st.Addr == ssa.Value(g) && st.Val == v {
+				return true
+			}
+		}
+	}
+	return false
+}
+
+// executeFlagGlobal: the string variable bound to the command's -e flag.
+func executeFlagGlobal(sp *ssa.Package) *ssa.Global {
+	for _, fn := range SrcFuncs(sp) {
+		for _, b := range fn.Blocks {
+			for _, in := range b.Instrs {
+				c, ok := in.(*ssa.Call)
+				if !ok {
+					continue
+				}
+				if o := calleeObj(c); o == nil || !isFuncNamed(o, "flag", "", "StringVar") || len(c.Call.Args) < 2 {
+					continue
+				}
+				if k, ok := c.Call.Args[1].(*ssa.Const); ok && k.Value != nil && k.Value.ExactString() == `"e"` {
+					if g, ok := c.Call.Args[0].(*ssa.Global); ok {
+						return g
+					}
+				}
+			}
+		}
+	}
+	return nil
 }
